@@ -212,3 +212,69 @@ UNITS.append(Unit('C11_chol_solve', ('C11', 'C01'), [cholesky, chol_solve], use=
                   spec=SPEC + c01.SQ_UNIQUE + CHOL_SPEC + CHOL2_SPEC, nra=NRA, preludes=PRE, broadcast=BC, level='L1', rlimit=100,
                   notes='cholesky: asymmetric input and a non-positive pivot are rejected, a returned factor satisfies the Cholesky equations; '
                         'cholesky_solve: the result solves L y = b, L^T x = y row by row (composition of the two substitutions with the transpose)'))
+
+# ---------------------------------------------------------------- lu_solve: (unit-lower L) y = P b, U x = y, column-oriented in place
+LUS = 'linalg::decomposition::lu::'
+LUS_SPEC = c01.PERM_SPEC + r'''
+pub open spec fn imin(a: int, b: int) -> int { if a <= b { a } else { b } }
+/// sum over lo <= j < hi of x[j] * m[i,j]   (factor order as computed by lu_solve)
+pub open spec fn xsum(m: Seq<f64>, n: int, x: Seq<f64>, i: int, lo: int, hi: int) -> real decreases hi - lo
+{ if hi <= lo { 0real } else { xsum(m, n, x, i, lo, hi - 1) + rv(x[hi - 1]) * rv(at2(m, n, i, hi - 1)) } }
+pub proof fn lemma_xsum_frame(m: Seq<f64>, n: int, x: Seq<f64>, y: Seq<f64>, i: int, lo: int, hi: int)
+    requires forall|j: int| lo <= j < hi ==> x[j] == y[j]
+    ensures xsum(m, n, x, i, lo, hi) == xsum(m, n, y, i, lo, hi)
+    decreases hi - lo
+{ if hi > lo { lemma_xsum_frame(m, n, x, y, i, lo, hi - 1); } }
+pub proof fn lemma_xsum_low(m: Seq<f64>, n: int, x: Seq<f64>, i: int, lo: int, hi: int)
+    requires lo < hi
+    ensures xsum(m, n, x, i, lo, hi) == rv(x[lo]) * rv(at2(m, n, i, lo)) + xsum(m, n, x, i, lo + 1, hi)
+    decreases hi - lo
+{ if hi > lo + 1 { lemma_xsum_low(m, n, x, i, lo, hi - 1); } else { assert(xsum(m, n, x, i, lo, lo) == 0real); assert(xsum(m, n, x, i, lo + 1, lo + 1) == 0real); } }
+/// y solves (unit lower triangle of lu) y = P b
+pub open spec fn lu_fwd(lu: Seq<f64>, n: int, piv: Seq<i32>, b: Seq<f64>, y: Seq<f64>, kk: int) -> bool {
+    forall|i: int| 0 <= i < n ==> rv(#[trigger] y[i]) == rv(b[piv[i] as int]) - xsum(lu, n, y, i, 0, imin(i, kk))
+}
+/// rows [p, n) of (upper triangle of lu) x = y hold; rows below p still carry the partial right-hand side
+pub open spec fn lu_bwd(lu: Seq<f64>, n: int, y: Seq<f64>, x: Seq<f64>, p: int) -> bool {
+    (forall|i: int| p <= i < n && rv(at2(lu, n, i, i)) != 0real ==> rv(at2(lu, n, i, i)) * rv(#[trigger] x[i]) + xsum(lu, n, x, i, i + 1, n) == rv(y[i]))
+    && (forall|i: int| 0 <= i < p && i < n ==> rv(#[trigger] x[i]) == rv(y[i]) - xsum(lu, n, x, i, p, n))
+}
+pub open spec fn lu_solved(lu: Seq<f64>, n: int, piv: Seq<i32>, b: Seq<f64>, x: Seq<f64>) -> bool {
+    exists|y: Seq<f64>| y.len() == n && #[trigger] lu_fwd(lu, n, piv, b, y, n) && lu_bwd(lu, n, y, x, 0)
+}
+'''
+lu_solve = Fn(LUS + 'lu_solve', ret='x', level='L1', valid='lu@.len() == b@.len() * b@.len()', panics={1: 'REJECT'},
+              requires=['C11.lu_solve.machine:: lu@.len() <= 0x7fff_ffff && b@.len() <= 0x7fff_ffff && b@.len() * b@.len() <= usize::MAX', 'C11.lu_solve.pivots:: is_perm32(pivots@, b@.len() as int)'],
+              ensures=['C11.lu_solve.valid:: lu@.len() == b@.len() * b@.len()', 'C11.lu_solve.len:: x@.len() == b@.len()',
+                       'C11.lu_solve.equations:: lu_solved(lu@, b@.len() as int, pivots@, b@, x@)'],
+              loops={1: {'invariant': ['n == b@.len()', 'x@.len() == n', 'is_perm32(pivots@, n as int)',
+                                       'C11.lu_solve.permuted_rhs:: forall|r: int| 0 <= r < i ==> #[trigger] x@[r] == b@[pivots@[r] as int]']},
+                     2: {'invariant': ['n == b@.len()', 'x@.len() == n', 'lu@.len() == n * n', 'lu@.len() <= 0x7fff_ffff', 'is_perm32(pivots@, n as int)',
+                                       'C11.lu_solve.fwd:: lu_fwd(lu@, n as int, pivots@, b@, x@, k as int)']},
+                     3: {'invariant': ['n == b@.len()', 'x@.len() == n', 'lu@.len() == n * n', 'lu@.len() <= 0x7fff_ffff', 'is_perm32(pivots@, n as int)', '0 <= k < n',
+                                       'C11.lu_solve.fwd.done:: forall|r: int| 0 <= r < i && r < n ==> rv(#[trigger] x@[r]) == rv(b@[pivots@[r] as int]) - xsum(lu@, n as int, x@, r, 0, imin(r, k as int + 1))',
+                                       'C11.lu_solve.fwd.todo:: forall|r: int| i <= r < n ==> rv(#[trigger] x@[r]) == rv(b@[pivots@[r] as int]) - xsum(lu@, n as int, x@, r, 0, imin(r, k as int))'],
+                         'body_ghost': 'let ghost pre_x = x@;',
+                         'body_start': 'lemma_idx(i as int, k as int, n as int, n as int);',
+                         'body_end': ('assert forall|r: int| 0 <= r < n implies #[trigger] xsum(lu@, n as int, x@, r, 0, imin(r, k as int + 1)) == xsum(lu@, n as int, pre_x, r, 0, imin(r, k as int + 1)) by { lemma_xsum_frame(lu@, n as int, x@, pre_x, r, 0, imin(r, k as int + 1)); } assert forall|r: int| 0 <= r < n implies #[trigger] xsum(lu@, n as int, x@, r, 0, imin(r, k as int)) == xsum(lu@, n as int, pre_x, r, 0, imin(r, k as int)) by { lemma_xsum_frame(lu@, n as int, x@, pre_x, r, 0, imin(r, k as int)); } assert(xsum(lu@, n as int, pre_x, i as int, 0, k as int + 1) == xsum(lu@, n as int, pre_x, i as int, 0, k as int) + rv(pre_x[k as int]) * rv(at2(lu@, n as int, i as int, k as int)));')},
+                     4: {'iter_name': 'it',
+                         'invariant': ['n == b@.len()', 'x@.len() == n', 'lu@.len() == n * n', 'lu@.len() <= 0x7fff_ffff', 'y_.len() == n',
+                                       'lu_fwd(lu@, n as int, pivots@, b@, y_, n as int)',
+                                       'C11.lu_solve.bwd:: lu_bwd(lu@, n as int, y_, x@, n - it.index@)']},
+                     5: {'invariant': ['n == b@.len()', 'x@.len() == n', 'lu@.len() == n * n', 'lu@.len() <= 0x7fff_ffff', 'y_.len() == n', '0 <= k < n',
+                                       'C11.lu_solve.bwd.final:: forall|r: int| k <= r < n && rv(at2(lu@, n as int, r, r)) != 0real ==> rv(at2(lu@, n as int, r, r)) * rv(#[trigger] x@[r]) + xsum(lu@, n as int, x@, r, r + 1, n as int) == rv(y_[r])',
+                                       'C11.lu_solve.bwd.done:: forall|r: int| 0 <= r < i ==> rv(#[trigger] x@[r]) == rv(y_[r]) - xsum(lu@, n as int, x@, r, k as int, n as int)',
+                                       'C11.lu_solve.bwd.todo:: forall|r: int| i <= r < k ==> rv(#[trigger] x@[r]) == rv(y_[r]) - xsum(lu@, n as int, x@, r, k as int + 1, n as int)'],
+                         'body_ghost': 'let ghost pre_x = x@;',
+                         'body_start': 'lemma_idx(i as int, k as int, n as int, n as int);',
+                         'body_end': ('assert forall|r: int| 0 <= r < n implies #[trigger] xsum(lu@, n as int, x@, r, k as int, n as int) == xsum(lu@, n as int, pre_x, r, k as int, n as int) by { lemma_xsum_frame(lu@, n as int, x@, pre_x, r, k as int, n as int); } assert forall|r: int| 0 <= r < n implies #[trigger] xsum(lu@, n as int, x@, r, k as int + 1, n as int) == xsum(lu@, n as int, pre_x, r, k as int + 1, n as int) by { lemma_xsum_frame(lu@, n as int, x@, pre_x, r, k as int + 1, n as int); } assert forall|r: int| k <= r < n implies #[trigger] xsum(lu@, n as int, x@, r, r + 1, n as int) == xsum(lu@, n as int, pre_x, r, r + 1, n as int) by { lemma_xsum_frame(lu@, n as int, x@, pre_x, r, r + 1, n as int); } lemma_xsum_low(lu@, n as int, pre_x, i as int, k as int, n as int);')}},
+              hints=[('let n = b.len();', 'after', 'proof { assert(n * n <= 0x7fff_ffff * 0x7fff_ffff) by(nonlinear_arith) requires 0 <= n <= 0x7fff_ffff; }'),
+                     ('for k in 0..n', 'before', 'proof { assert(lu_fwd(lu@, n as int, pivots@, b@, x@, 0)) by { assert forall|r: int| 0 <= r < n implies xsum(lu@, n as int, x@, r, 0, imin(r, 0)) == 0real by { } } }'),
+                     ('for k in it: (0..n).rev()', 'before', 'let ghost y_ = x@; proof { assert(lu_bwd(lu@, n as int, y_, x@, n as int)) by { assert forall|r: int| 0 <= r < n implies xsum(lu@, n as int, x@, r, n as int, n as int) == 0real by { } } }'),
+                     ('x[k] = x[k] / (lu[k * n + k]);', 'pre', 'let ghost px_ = x@; proof { lemma_idx(k as int, k as int, n as int, n as int); }'),
+                     ('x[k] = x[k] / (lu[k * n + k]);', 'post',
+                      'proof { assert forall|r: int| 0 <= r < n implies #[trigger] xsum(lu@, n as int, x@, r, k as int + 1, n as int) == xsum(lu@, n as int, px_, r, k as int + 1, n as int) by { lemma_xsum_frame(lu@, n as int, x@, px_, r, k as int + 1, n as int); } assert forall|r: int| k < r < n implies #[trigger] xsum(lu@, n as int, x@, r, r + 1, n as int) == xsum(lu@, n as int, px_, r, r + 1, n as int) by { lemma_xsum_frame(lu@, n as int, x@, px_, r, r + 1, n as int); } '
+                      'if rv(at2(lu@, n as int, k as int, k as int)) != 0real { nra_div_cancel(rv(y_[k as int]) - xsum(lu@, n as int, px_, k as int, k as int + 1, n as int), rv(at2(lu@, n as int, k as int, k as int)), rv(x@[k as int])); } }'),
+                     ('\n                x\n', 'replace', '\n proof { assert(lu_solved(lu@, n as int, pivots@, b@, x@)); }\n x\n')])
+UNITS.append(Unit('C11_lu_solve', ('C11', 'C01'), [lu_solve], types=core.TYPES, type_spec=core.TYPE_SPEC, spec=SPEC + LUS_SPEC, nra=NRA, preludes=PRE, broadcast=BC, level='L1', rlimit=100,
+                  notes='lu_solve: the permuted right-hand side is read through the pivots, the in-place column sweeps solve (unit lower) y = P b and then U x = y row by row; size mismatch rejected'))
